@@ -162,7 +162,7 @@ def one_arg_aggregate(model):
     return False
 
 
-def read_doc(acc, cls, reader, path, payload, key, allow_reject=True):
+def read_doc(acc, cls, reader, path, payload, key, allow_reject=True, expected=None):
     from flamapy.metamodels.fm_metamodel import transformations as T
     R = getattr(T, reader)
     err = io.StringIO()
@@ -172,6 +172,18 @@ def read_doc(acc, cls, reader, path, payload, key, allow_reject=True):
     except Exception:  # noqa: BLE001
         acc.count("document-rejected-by-reader:" + reader)
         return
+    if expected is not None and len(expected.get("ctcs", [])) == len(m.ctcs):
+        # "asking a constraint for its features returns exactly the feature names written in it": the names
+        # written in the DOCUMENT (known from the reference spec it was emitted from)
+        for c0, c1 in zip(expected["ctcs"], m.ctcs):
+            try:
+                got = set(c1.get_features())
+            except Exception:  # noqa: BLE001 - judged by the walker below
+                break
+            if got != S.ast_names(c0["ast"]):
+                acc.fail(cls, "features-are-the-names-written", reader, [], "names-differ",
+                         f"document writes {sorted(S.ast_names(c0['ast']))[:6]}, get_features gives {sorted(got)[:6]}", payload, key)
+                return
     judge_model(acc, cls, reader, m, payload, key)
 
 
@@ -241,7 +253,7 @@ def run_shard(desc, acc):
                 with open(path, "w", encoding="utf-8") as fh:
                     fh.write(text)
                 read_doc(acc, f"emitted|{reader}", reader, path, {"kind": "doc", "reader": reader, "ext": ext, "text": text},
-                         S.digest(text))
+                         S.digest(text), expected=exp)
         # the library's own JSON format written by another producer (n-ary operand lists of any length)
         clj = [c for c in RT.FORMATS["json"].classes() if c[0] not in ("ctc:chain7-20", "ctc:chain17-70", "ctc:wide11-15")]
         clj.append(("ctc:chain16-70", inject.inj_ctc_chain(("AND", "OR"), (16, 70))))
